@@ -130,12 +130,14 @@ class FakeSelector(selectors._BaseSelectorImpl):
                 continue
             if key.fd >= FD_BASE:
                 watched[key.fd - FD_BASE] = key
+            elif key.fd == 0 and getattr(self.env, "fd0", False):
+                watched[1] = key        # abstract descriptor 1 is presented as descriptor 0 (stdin, the descriptor urwid usually watches)
             elif key.fd in self.env.realfds:
                 watched[self.env.realfds[key.fd]] = key
                 real.append(key.fd)
         if timeout is not None and timeout < 0:
             timeout = 0
-        ready = self.env.wait(timeout, [k for k, v in watched.items() if v.fd >= FD_BASE], real)
+        ready = self.env.wait(timeout, [k for k, v in watched.items() if v.fd >= FD_BASE or (v.fd == 0 and getattr(self.env, "fd0", False))], real)
         return [(watched[f], selectors.EVENT_READ) for f in ready if f in watched]
 
 
@@ -174,7 +176,11 @@ class Adapter:
         self.env = env
         self.cleanup = []
 
+    zero_ok = True      # this loop's double takes any integer as a descriptor
+
     def fd(self, f):
+        if f == 1 and self.zero_ok and getattr(self.env, "fd0", False):
+            return 0
         return FD_BASE + f
 
     def slow(self, ms):
@@ -295,6 +301,7 @@ class _FakePoller:
 
 class ZmqAdapter(Adapter):
     name = "zmq"
+    zero_ok = False
 
     def make(self):
         import os
@@ -322,6 +329,8 @@ class ZmqAdapter(Adapter):
 
 
 class TrioAdapter(Adapter):
+    zero_ok = False
+
     name = "trio"
 
     def make(self):
